@@ -59,6 +59,7 @@ def shards(tier, seed):
     out.append(("roundtrip",))
     out.append(("threads",))
     out.append(("biglimit",))
+    out.append(("rawbytes",))
     return out
 
 
@@ -215,6 +216,56 @@ def biglimit_family(r):
     r.sample({"biglimit": "sys.set_int_max_str_digits(0) after import", "digits": [4299, 4300, 4301, 5000]})
 
 
+RAW_TABLES = [("/about",), ("/item/{n:int}",), ("/files/{name}", "/files/"), ("/u/{u:uuid}", "/u/{x}"), ("/d/{d:date}", "/{a}/{b}"), ("/p/{x:decimal}", "/{rest:any}"), ("/{rest:any}",)]
+RAW_BASES = [b"/about", b"/item/12", b"/files/x", b"/files/", b"/u/" + UU.encode(), b"/d/2021-03-07", b"/p/1.50", b"/"]
+RAW_JUNK = [b"\xff", b"\xe9", b"\xc3", b"\xe4\xb8", b"\xc0\xaf", b"\xed\xa0\x80", b"\x80"]
+
+
+def rawbytes_family(r):
+    """WSGI only: request paths whose bytes are not UTF-8 (a server hands PATH_INFO over as the Latin-1 reading of whatever bytes
+    the client sent). Whatever text the router makes of such bytes, the pattern has to cover the entire path: the outcome must
+    be the reference outcome for one total reading of the bytes (one replacement character per undecodable byte, the Latin-1
+    reading, or lone surrogates) - a reading that drops bytes is none."""
+    for table in RAW_TABLES:
+        log = []
+        router = build_router("wsgi", table, log)
+        for base in RAW_BASES:
+            for junk in RAW_JUNK:
+                for pos in range(1, len(base) + 1):
+                    raw = base[:pos] + junk + base[pos:]
+                    try:
+                        raw.decode("utf-8")
+                        continue  # (became valid by accident)
+                    except UnicodeDecodeError:
+                        pass
+                    readings = [raw.decode("utf-8", "replace"), raw.decode("latin-1"), raw.decode("utf-8", "surrogateescape")]
+                    wants = []
+                    for text in readings:
+                        e = expected(table, text)
+                        if e is None:
+                            wants.append(None)
+                        elif e[1] == "ambiguous":
+                            wants.append((e[0], "ambiguous"))
+                        else:
+                            types = {t[1]: t[2] for t in e[2] if t[0] == "param"}
+                            wants.append((e[0], {k: RF.denote(types[k], v) for k, v in e[1].items()}))
+                    del log[:]
+                    env = SV.to_environ(SV.AReq(path="/"))
+                    env["PATH_INFO"] = raw.decode("latin-1")
+                    res = SV.run_wsgi(router, env)
+                    r.count("evaluations")
+                    r.count("distinct_nontrivial")
+                    w = {"rawbytes": True, "iface": "wsgi", "table": list(table), "root": "", "path": repr(raw), "full_path_len": len(raw)}
+                    if res.exc is not None:
+                        r.violation(f"rawbytes:exception:{type(res.exc).__name__}", w, f"wsgi Router{tuple(table)} on path bytes {raw!r} raised {type(res.exc).__name__}: {str(res.exc)[:100]}")
+                        continue
+                    got = None if (res.status == 404 and not log) else ((log[0][0], log[0][1]) if res.status == 200 and len(log) == 1 else ("?", res.status, len(log)))
+                    ok = any(got == want or (want is not None and got is not None and want[1] == "ambiguous" and got[0] == want[0]) for want in wants)
+                    if not ok:
+                        r.violation("rawbytes:pattern-does-not-cover-path", w, f"wsgi Router{tuple(table)} on path bytes {raw!r}: router outcome {got!r:.120}; for every total reading of the bytes the reference gives one of {wants!r:.200}")
+    r.sample({"rawbytes": [repr(x) for x in RAW_JUNK], "bases": [repr(x) for x in RAW_BASES], "tables": len(RAW_TABLES)})
+
+
 def thread_family(r, tier):
     import os
     from ..core.runner import REPO
@@ -253,6 +304,9 @@ def run_shard(desc, tier):
         return r
     if desc[0] == "biglimit":
         biglimit_family(r)
+        return r
+    if desc[0] == "rawbytes":
+        rawbytes_family(r)
         return r
     if desc[0] == "tables":
         _, first, k, d = desc
@@ -349,6 +403,10 @@ def replay(w):
     if "threads" in w:
         thread_family(r, "quick")
         return bool(r.viol), {"violations": sorted(r.viol), "texts": [v[2][:300] for v in r.viol.values()]}
+    if w.get("rawbytes"):
+        rawbytes_family(r)
+        hits = {k: v for k, v in r.viol.items() if v[1].get("table") == w["table"]}
+        return bool(hits), {"violations": sorted(hits), "texts": [v[2][:300] for v in hits.values()]}
     if w.get("biglimit"):
         biglimit_family(r)
         return bool(r.viol), {"violations": sorted(r.viol)}
